@@ -59,10 +59,16 @@ def scope_split(case):
     return [bottom, middle, top]
 
 
+def chain_text(case):
+    """the same tree written with fewer parentheses (postfix chains and trailing bodies bare), or the plain text when that is not possible"""
+    t = F.r_chain(case["ast"])
+    return t if t is not None else F.r(case["ast"])
+
+
 def reqs_core(case):
     text = F.r(case["ast"])
     return [{"op": "eval", "text": text, "scope": scope_single(case)},
-            {"op": "eval", "text": text, "scope": scope_split(case)}]
+            {"op": "eval", "text": chain_text(case), "scope": scope_split(case)}]
 
 
 def judge_core(ctx, case, resp):
@@ -89,12 +95,15 @@ def judge_core(ctx, case, resp):
     else:
         unspecified = False
     # metamorphic: the result depends only on the text and on the values bound to its free names
+    text2 = chain_text(case)
+    if text2 != text:
+        labels.append("second-text:fewer-parentheses")
     if "values" not in r2:
-        return Fail("C01/scope-shape-rejected", "%s parses in a flat scope but not with the same bindings stacked: %r" % (text, r2))
+        return Fail("C01/scope-shape-rejected", "%s parses in a flat scope but %s does not with the same bindings stacked: %r" % (text, text2, r2))
     got2 = val.from_wire(r2["values"][0])
     if not val.same(got, got2):
-        return Fail("C01/depends-on-scope-shape", "%s\n  flat scope   -> %s\n  stacked scope -> %s\n  bindings %r" % (
-            text, val.show(got), val.show(got2), case["bindings"]))
+        return Fail("C01/depends-on-scope-shape", "%s\n  flat scope   -> %s\n  %s\n  stacked scope -> %s\n  bindings %r" % (
+            text, val.show(got), text2, val.show(got2), case["bindings"]))
     if unspecified:
         return None
     nontrivial = len(cons - {"num", "str", "bool", "null", "name", "idx"}) >= 2 and (want is not None or "wrongkind" in labels or True)
